@@ -379,6 +379,8 @@ def check_obligation(ctx, ob):
     formulas = list(ctx.axioms) + list(_calls.AXIOMS) + list(ob.pc) + [z3.Not(ob.goal)]
     # once a function instance has used its solver budget (only happens when many obligations are undecidable, i.e. on code that
     # left the contract), the remaining obligations get a short budget: they end as `undecided`, never as a verdict
+    if spent >= 2 * INSTANCE_BUDGET_S:
+        return 'unknown', 0.0, ''       # the instance is far outside its contract: everything else stays undecided
     if spent >= INSTANCE_BUDGET_S:
         plan = [(2000, False, 0), (2000, True, 0)]
     elif ob.expect == 'sat':
